@@ -96,9 +96,26 @@ def thorough_matrix():
     return m
 
 
-def run_one(i, deadline_s):
+class Eng:
+    """what differs between the vector (E1) and set (E2) explorers"""
+
+    def __init__(self, label, build_fn, name_fn, cat_fn, kind_fn):
+        self.label, self.build, self.name, self.cat, self.kind = label, build_fn, name_fn, cat_fn, kind_fn
+
+
+def _vcat(i):
+    return {"TC1": "TC", "TC4": "TC", "TC12": "TC", "TR": "TR", "PTT": "TR", "NTR": "NTR", "PTN": "NTR"}[i["elem"]]
+
+
+def _vkind(i):
+    return i["flavour"]
+
+
+def run_one(i, deadline_s, eng=None):
     """Run one instantiation; returns dict(result json | crash info)."""
-    binp = build(i)
+    eng = eng or E1ENG
+    binp = eng.build(i)
+    os.makedirs(vlib.BUILD, exist_ok=True)
     fd, crumb = tempfile.mkstemp(prefix="crumb-", dir=vlib.BUILD)
     os.close(fd)
     cmd = [binp, "--explore", "--K", str(i["K"]), "--L", str(i["L"]), "--reloc", str(i.get("reloc", 0)), "--crumb", crumb,
@@ -164,11 +181,13 @@ def opkind(op):
     return k
 
 
-def explore(ctx, matrix, want_tags, engine="E1", any_fail_counts=False):
+def explore(ctx, matrix, want_tags, engine="E1", any_fail_counts=False, eng=None):
     """Run the matrix; record violations whose tags intersect want_tags (or every failure if any_fail_counts)."""
+    eng = eng or E1ENG
+    name = eng.name
     per_deadline = max(60, ctx.time_left() - 90)
-    vlib.pmap(build, matrix)  # parallel builds (BuildError propagates)
-    infos = vlib.pmap(lambda i: run_one(i, per_deadline), matrix)
+    vlib.pmap(eng.build, matrix)  # parallel builds (BuildError propagates)
+    infos = vlib.pmap(lambda i: run_one(i, per_deadline, eng), matrix)
     tot = dict(states=0, transitions=0, outcomes=0, violating=0)
     samples, insts, exhaustive = [], [], True
     maxdepth = 0
@@ -179,8 +198,8 @@ def explore(ctx, matrix, want_tags, engine="E1", any_fail_counts=False):
         if res is None:
             ops = info.get("crash_hist", "")
             okind = opkind(ops.split(" ")[-1]) if ops else "?"
-            cat = {"TC1": "TC", "TC4": "TC", "TC12": "TC", "TR": "TR", "PTT": "TR", "NTR": "NTR", "PTN": "NTR"}[i["elem"]]
-            sig = "%s|%s|%s|%s|crash|%s" % (engine, i["flavour"], cat, okind, norm(info["crash_summary"].split(" in ")[0]))
+            cat = eng.cat(i)
+            sig = "%s|%s|%s|%s|crash|%s" % (engine, eng.kind(i), cat, okind, norm(info["crash_summary"].split(" in ")[0]))
             failed, same, tr = confirm(info["bin"], i, ops) if ops else (True, True, (info["rc"], "", ""))
             if not same:
                 raise RuntimeError("nondeterministic replay of crash: %s" % ops)
@@ -206,13 +225,13 @@ def explore(ctx, matrix, want_tags, engine="E1", any_fail_counts=False):
         for s in res["samples"][:2]:
             samples.append({"instantiation": name(i), "history | op -> key": s})
         if res.get("static_fail") and ("C14" in want_tags or any_fail_counts):
-            ctx.violation("%s|%s|%s|static|%s" % (engine, i["flavour"], res["instantiation"]["cat"], norm(res["static_fail"])),
+            ctx.violation("%s|%s|%s|static|%s" % (engine, eng.kind(i), res["instantiation"]["cat"], norm(res["static_fail"])),
                           {"engine": engine, "instantiation": i, "observed": res["static_fail"]}, res["static_fail"])
         for v in res["violations"]:
             tags = set(v["tags"].split(","))
             if not (any_fail_counts or (tags & set(want_tags))):
                 continue
-            sig = "%s|%s|%s|%s|%s" % (engine, i["flavour"], res["instantiation"]["cat"], opkind(v["op"]), norm(v["msg"]))
+            sig = "%s|%s|%s|%s|%s" % (engine, eng.kind(i), res["instantiation"]["cat"], opkind(v["op"]), norm(v["msg"]))
             if sig in cands:
                 continue
             cands[sig] = (info, v)
@@ -255,6 +274,9 @@ ASSUME = [
 ]
 
 
+E1ENG = Eng("E1", build, name, _vcat, _vkind)
+
+
 def relevant(pid, i):
     """Which instantiations can say anything about a property."""
     if pid == "C02":
@@ -264,3 +286,15 @@ def relevant(pid, i):
     if pid == "C06":
         return i["alloc"].startswith("ledger") and not i["flavour"].startswith("fixed")
     return True
+
+
+def merge_cov(a, b):
+    """combine the coverage records of two explorations (vector + set engines)"""
+    c = dict(a)
+    for k in ("states", "transitions", "traces_validated_against_impl", "distinct_outcomes", "violating_transitions_all_monitors"):
+        c[k] = a[k] + b[k]
+    c["samples"] = a["samples"][:6] + b["samples"][:6]
+    c["instantiations"] = a["instantiations"] + b["instantiations"]
+    c["max_depth"] = max(a["max_depth"], b["max_depth"])
+    c["exhaustive"] = a["exhaustive"] and b["exhaustive"]
+    return c
